@@ -232,6 +232,8 @@ def gen_random(rng):
                     b[k2] = [ren.get(x, x) for x in b[k2]]
         if rng.random() < 0.3:
             sprinkle_unicode(rng, spec)
+        if rng.random() < 0.2:
+            G.with_prior(rng, spec)
         if rng.random() < 0.1:
             # "no text" given as an empty list / empty string / list of one empty string
             for key in ("title", "subline", "footnote", "source", "page_header", "page_footer"):
